@@ -189,14 +189,53 @@ def d3_uncacheable_table(ctx, rm: REModel):
 def d4_rewind(ctx, rm: REModel):
     rw = rm.m("_rewind")
     seq = list(A.walk_stmts(rw.node.body))
-    i_plan = next((i for i, s in enumerate(seq) if isinstance(s, ast.Assign) and A.norm(s.value) in
-                   ("ensure_generator(list(self._msg_cache))", "ensure_generator(tuple(self._msg_cache))")), None)
-    i_reset = next((i for i, s in enumerate(seq) if isinstance(s, ast.Assign) and A.chain(s.targets[0]) == "self._msg_cache"), None)
-    ok = i_plan is not None and i_reset is not None and i_plan < i_reset
-    ctx.ob("C04.D4-rewind-shape", cname(rw, None, "replay plan = the cached messages in order, then the cache is emptied"), ok,
-           "" if ok else "the replay plan is not an order-preserving copy of the cache taken before it is emptied", where=where(rw, rw.node))
+    # the value returned is ensure_generator(<order-preserving copy of self._msg_cache>), the copy being taken (on every path)
+    # before the cache is replaced; resolved through reaching definitions, so temporaries do not matter
+    import copy as _copy
+    g = q.cfg(rw, q.quiet_policy(rm.repo))
+    CACHE = "self._msg_cache"
+    COPIES = (f"list({CACHE})", f"tuple({CACHE})", f"deque({CACHE})", f"{CACHE}.copy()", f"copy.copy({CACHE})", f"[*{CACHE}]", f"({CACHE})")
+
+    def resolve(nid, e, depth=6):
+        """-> (expanded expression, ids of the CFG nodes at which self._msg_cache is read for it)"""
+        sites = set()
+
+        def at(node_id, e, d):
+            class X(ast.NodeTransformer):
+                def visit_Attribute(self, n):
+                    if A.chain(n) == CACHE and isinstance(n.ctx, ast.Load):
+                        sites.add(node_id)
+                    return self.generic_visit(n)
+
+                def visit_Name(self, n):
+                    if not isinstance(n.ctx, ast.Load) or d <= 0:
+                        return n
+                    defs = q.reaching_defs(g, node_id, n.id)
+                    if len(defs) != 1 or defs[0][0] != "assign" or defs[0][1] is None or isinstance(defs[0][2].stmt, ast.AugAssign):
+                        return n
+                    return at(defs[0][2].id, _copy.deepcopy(defs[0][1]), d - 1)
+            return X().visit(_copy.deepcopy(e))
+        return at(nid, e, depth), sites
+
+    resets = [s for s in seq if isinstance(s, ast.Assign) and any(A.chain(t) == CACHE for t in s.targets)]
+    reset_ids = [i for s in resets for i in g.nodes_of(s)]
+    after_reset = g.reachable(reset_ids) if reset_ids else set()
     ret = [s for s in seq if isinstance(s, ast.Return)]
-    ok = bool(ret) and i_plan is not None and A.norm(ret[-1].value) == A.norm(seq[i_plan].targets[0])
+    ok_plan, ok_before, why = bool(ret), True, ""
+    for r in ret:
+        for nid in g.nodes_of(r):
+            e, sites = resolve(nid, r.value) if r.value is not None else (None, set())
+            txt = A.norm(e) if e is not None else "None"
+            if not any(txt == f"ensure_generator({c})" for c in COPIES[:-1]):
+                ok_plan, why = False, f"`return {A.short(r.value)}` is `{txt}`"
+            if any(i in after_reset and i not in reset_ids for i in sites):
+                ok_before, why = False, "the cache is read for the replay plan after it was emptied"
+    # the cache is emptied on every normal path
+    must_reset = bool(reset_ids) and g.exit not in g.reachable([g.entry], avoid=lambda n: n.id in reset_ids)
+    ok = ok_plan and ok_before and must_reset
+    ctx.ob("C04.D4-rewind-shape", cname(rw, None, "replay plan = the cached messages in order, then the cache is emptied"), ok,
+           "" if ok else "the replay plan is not an order-preserving copy of the cache taken before it is emptied" + (f" ({why})" if why else ""), where=where(rw, rw.node), nontrivial=True)
+    ok = ok_plan
     ctx.ob("C04.D4-rewind-shape", cname(rw, None, "returns the replay plan"), ok, "" if ok else "_rewind does not return the plan it built", where=where(rw, rw.node))
     loops = [s for s in seq if isinstance(s, ast.For) and "self._run_bundlers" in A.norm(s.iter) and A.method_calls(s, "rewind")]
     ctx.ob("C04.D4-rewind-shape", cname(rw, None, "every bundler rewinds"), bool(loops), "" if loops else "bundlers are no longer rewound", where=where(rw, rw.node))
